@@ -28,3 +28,23 @@ class Ctx:
     def cached_parser(self):
         from sa import grammar
         return grammar.CachedParser(self.repo)
+
+    @functools.cached_property
+    def cpp(self):
+        from sa.cppast import CppFacts
+        return CppFacts(self.repo)
+
+    @functools.cached_property
+    def templates(self):
+        from sa.templates import Templates
+        return Templates(self.repo)
+
+    @functools.cached_property
+    def cpp_control(self):
+        from sa.rules import cpp_rules
+        return cpp_rules.control(self.repo)
+
+    @functools.cached_property
+    def widths(self):
+        from sa.rules import widths
+        return widths.widths(self.repo, self.tier)
